@@ -15,7 +15,8 @@ import vlib
 MC_CFG = "SPECIFICATION Spec\nCONSTANTS\n  Truncate = %s\n  MaxSteps = %d\nINVARIANTS FileIsExactlyTheReport StdoutIsExactlyTheReport FailuresPrintNoReport%s\nCHECK_DEADLOCK FALSE\n"
 
 PAIRS = {
-    1: (corpus.OK_PROFILE, c09.DOCS["pass"]),
+    # one line of more than 1 MiB (minified graph)
+    1: (corpus.OK_PROFILE, json.dumps([corpus.node(i, p="v" * 40, q="ok") for i in range(9000)])),
     # percent signs in the message and in a node id: the output must not be treated as a format string
     2: (corpus.OK_PROFILE.replace("p is required", "100% of p is required %s %d %v"),
         c09.DOCS["fail1"].replace("http://example.org/n1", "http://example.org/my%20node%n1")),
@@ -57,7 +58,12 @@ def run(tier):
     # reference outputs from the library (fresh process)
     ref_rows = [{"id": "pair%d" % i, "op": "validate", "profile": p, "data": d} for i, (p, d) in PAIRS.items()]
     gen_profiles = [corpus.OK_PROFILE, corpus.OK_PROFILE_NESTED, c15.RICH_PROFILE] + [p for p, _, _ in corpus.fixture_pairs()[:: (12 if quick else 2)]]
-    norm_docs = [c09.DOCS["pass"], c09.DOCS["fail3"], c15.RICH_DATA, "{}"] + [d for _, d, _ in corpus.fixture_pairs()[:: (15 if quick else 3)] if len(d) < 300000]
+    numeric = json.dumps([{"@id": "http://example.org/num", "@type": ["http://example.org/ns#T"]}])[:-2] + \
+        ', "http://example.org/ns#a": 1.0, "http://example.org/ns#b": 1e2, "http://example.org/ns#c": 0.10, ' \
+        '"http://example.org/ns#d": 12345678901234567890, "http://example.org/ns#e": -0.0, "http://example.org/ns#f": 1E-7, ' \
+        '"http://example.org/ns#g": [2.50, 100, 1.0e+3]}]'
+    long_line = json.dumps([corpus.node(i, p="v" * 40, q="ok") for i in range(9000)])     # > 1 MiB on a single line
+    norm_docs = [c09.DOCS["pass"], c09.DOCS["fail3"], c15.RICH_DATA, "{}", numeric, long_line] + [d for _, d, _ in corpus.fixture_pairs()[:: (15 if quick else 3)] if len(d) < 300000]
     refs = {}
     for r in vlib.run_harness("libout", ref_rows, "c18_ref", shards=1):
         if r.get("err"):
